@@ -509,8 +509,9 @@ func (p *Program) OverridesAllScan(typeName, field string) []string {
 
 // DeterministicScan: no function of the named package (closures included)
 // iterates over a map, selects over channels, starts a goroutine or calls into
-// the clock, a random source or the process environment - the syntactic
-// sources of run-to-run variation in a single-threaded generator.
+// the clock, a random source or the process environment, or reads os.Args
+// outside main - the syntactic sources of run-to-run variation in a
+// single-threaded generator.
 func (p *Program) DeterministicScan(pkgName string) []string {
 	var bad []string
 	banned := func(fn *ssa.Function) string {
@@ -547,6 +548,12 @@ func (p *Program) DeterministicScan(pkgName string) []string {
 				case *ssa.Range:
 					if _, isMap := x.X.Type().Underlying().(*types.Map); isMap {
 						bad = append(bad, fmt.Sprintf("%s iterates over a map at %s (iteration order varies from run to run)", name, p.Prog.Fset.Position(x.Pos())))
+					}
+				case *ssa.UnOp:
+					// main's own flag handling (--version, --help) aside, what is generated
+					// must not depend on how the program was invoked
+					if g, ok := x.X.(*ssa.Global); ok && g.Pkg != nil && g.Pkg.Pkg.Path() == "os" && g.Name() == "Args" && !(fn.Name() == "main" && fn.Parent() == nil) {
+						bad = append(bad, fmt.Sprintf("%s reads os.Args at %s (the output would depend on how the program was invoked)", name, p.Prog.Fset.Position(x.Pos())))
 					}
 				case *ssa.Select:
 					bad = append(bad, name+" selects over channels")
